@@ -591,6 +591,7 @@ func consensusCodecs() []*codec {
 			},
 			noDeepDecoded: true, // Data of an arbitrary input may carry a non-canonical message
 			maxSeed:       400,
+			group:         "consensus.Payload",
 		})
 	}
 	return out
